@@ -4,6 +4,7 @@ import CC.Lemmas.Rev
 import CC.Spec.Cover
 import CC.Lemmas.Cover
 import CC.Lemmas.Kem
+import CC.Lemmas.World
 /-! # C02 — unauthorized keys never recover a secret -/
 
 namespace CC.Props.C02
@@ -39,6 +40,15 @@ theorem unauthorized_gets_nothing (msk : Msk) (hS : msk.structure_.WF) (hd : msk
   intro hex
   rw [hiff.1 hex] at hcov
   cases hcov
+
+/-- **C02 over every history**: in every reachable world an unauthorised key gets nothing -/
+theorem unauthorized_gets_nothing_reachable (w : World) (hw : Reachable w) (u e : AP)
+    (hu : Spec.policyWf w.msk.structure_ u = true) (he : Spec.policyWf w.msk.structure_ e = true)
+    (ru re : List Right) (hru : w.msk.structure_.uskRights u = .ok ru) (hre : w.msk.mpk.structure_.encRights e = .ok re)
+    (n n' : Rng) (usk : Usk) (s : Nat) (x : XEnc)
+    (hk : (uskKeygen w.msk ru n).1 = .ok usk) (hen : (encaps w.msk.mpk re n').1 = .ok (s, x))
+    (hcov : Spec.covers w.msk.structure_ u e = false) : decaps usk x = none :=
+  unauthorized_gets_nothing w.msk (reachable_struct_wf w hw).1 (reachable_inv w hw).distinct u e hu he ru re hru hre n n' usk s x hk hen hcov
 
 /-- a lower hierarchical attribute never opens a higher one: in a hierarchy, `x ≤ y` of the
 specification is the position order, so a clause restricted at `y` does not cover `x` above `y` -/
